@@ -6,6 +6,7 @@ import (
 	"maps"
 	"regexp"
 	"strconv"
+	"sync"
 
 	"github.com/BondMachineHQ/BondMachine/pkg/procbuilder"
 	"github.com/BondMachineHQ/BondMachine/pkg/simbox"
@@ -52,6 +53,19 @@ type VM struct {
 	wait_proc int
 
 	abs_tick uint64
+
+	done     chan struct{} // closed by Shutdown: tells the workers started by Launch_processors to exit
+	doneOnce sync.Once
+}
+
+// Shutdown releases the goroutines started by Launch_processors. It has to be called when the
+// simulation is over (no Step in progress); it is safe to call it more than once.
+func (vm *VM) Shutdown() {
+	vm.doneOnce.Do(func() {
+		if vm.done != nil {
+			close(vm.done)
+		}
+	})
 }
 
 func (vm *VM) CopyState(vmSource *VM) error {
@@ -140,7 +154,13 @@ type SimReport struct {
 
 func (vm *VM) Processor_execute(psc *procbuilder.SimConfig, instruct <-chan int, resp chan<- int, resultChan chan<- string, procId int) {
 	for {
-		switch <-instruct {
+		var command int
+		select {
+		case command = <-instruct:
+		case <-vm.done:
+			return
+		}
+		switch command {
 		case 0:
 			resp <- procId
 		case 1:
@@ -182,6 +202,7 @@ func (vm *VM) Init() error {
 
 	cmdChan := make(chan []byte)
 	vm.cmdChan = cmdChan
+	vm.done = make(chan struct{})
 
 	for _, ed := range vm.EmuDrivers {
 		ed.Init()
@@ -302,6 +323,8 @@ func (vm *VM) EmuDriverDispatcher() {
 			for _, ed := range vm.EmuDrivers {
 				ed.PushCommand(cmd)
 			}
+		case <-vm.done:
+			return
 		}
 	}
 }
